@@ -230,6 +230,19 @@ def _calls():
         r.add_trajectory("est", b)
         W(r, "result")
         file_interface.save_res_file("w.zip", r)
+        # values a serialiser may want to rewrite: non-finite numbers, numpy
+        # scalars, nested containers
+        r2 = m.get_result()
+        r2.stats["max"] = float("nan")
+        r2.stats["min"] = np.float64(0.25)
+        r2.info["upper_bound"] = float("inf")
+        r2.info["lower_bound"] = -float("inf")
+        r2.info["nested"] = {"values": [1.5, float("nan")], "name": "n"}
+        W(r2, "result with non-finite statistics / info values")
+        file_interface.save_res_file("w2.zip", r2)
+        with open("w3.zip", "wb") as fh:
+            file_interface.save_res_file(fh, r2)
+        pandas_bridge.result_to_df(r2)
     add("writers", f_write)
 
     def f_plot(a, b, W):
@@ -422,11 +435,14 @@ def shares(o1, o2):
 
 
 class Heap(object):
-    n_inits = 4
+    n_inits = 6
+    replay_per_op = True
 
     def initial(self, i):
-        kind = "traj" if i >= 2 else "path"
-        mode = "se3" if i % 2 == 0 else "quat"
+        # 0..3: {path, trajectory} x {matrices, positions+quaternions};
+        # 4, 5: trajectory / path holding its matrices as one (n,4,4) array
+        kind = "traj" if i in (2, 3, 4) else "path"
+        mode = ("se3" if i % 2 == 0 else "quat") if i < 4 else "arr"
         a, _ = objects(kind, mode)
         return HState([a])
 
@@ -454,7 +470,8 @@ class Heap(object):
         for o in st.objs:
             flags = (type(o).__name__, hasattr(o, "_positions_xyz"),
                      hasattr(o, "_orientations_quat_wxyz"),
-                     hasattr(o, "_poses_se3"), bool(o._projected))
+                     hasattr(o, "_poses_se3"), bool(o._projected),
+                     type(getattr(o, "_poses_se3", None)).__name__)
             c = copy.deepcopy(o)
             parts.append(repr(flags).encode())
             parts.append((np.round(np.array(c.poses_se3), 9) + 0.0).tobytes())
